@@ -40,6 +40,21 @@ CHECKS["C09"] = dict(
     technique="Lean 4 theorems (Sat-preservation for all interpretations, totality) + differential correspondence on generated formula ASTs",
 )
 
+CHECKS["C16"] = dict(
+    category="proof",
+    text="DerivationTree with its private __is_open cache is modelled (constructor, is_open, replace_path incl. retain_id and the three-way "
+    "flag rule, substitute incl. the nested-replacement filter, expansion, find_node, trie keys). Theorems: the cache invariant holds in every "
+    "state reachable by ANY operation sequence (cacheOk_reachable, induction over the op list), is_open() is then correct, str = concatenation "
+    "of leaves, paths/get/find_node agree, the sub-trie view at any path equals the subtree's paths for any branching degree, trie keys are "
+    "total (up to the generated bound), invertible, inside the datrie alphabet and prefix-preserving (constants regenerated from trie.py by the "
+    "translator on every run), replacement is local, structural equality implies equal structural hash. Tie: random op sequences on real "
+    "objects vs the model, comparing every observation incl. private caches after each op, plus direct property-level checks on the real object.",
+    design_ref="DESIGN.md section 7 C16",
+    note="Modelled, not verified: datrie as an ideal prefix map; Python hash() abstracted; lru_cache'd methods assumed pure. "
+    "Trie key bound: indices < 252 + 250^4 (theorem hypothesis; larger indices raise ValueError).",
+    technique="Lean 4 theorems (invariant by induction over op sequences, refinement to plain trees) + translator for trie constants + op-sequence correspondence",
+)
+
 NOT_APPLICABLE = {
     "C22": "reproducibility across fresh processes depends on hash randomisation, Z3 seeds/timeouts and wall-clock time; a functional Lean model would prove determinism vacuously and no executable model can exhibit the failure (DESIGN.md section 8)",
 }
